@@ -21,6 +21,7 @@ type MsgSpec struct {
 	Data       []byte `json:"data"`                 // canonical proto bytes of the message
 	Compressed bool   `json:"compressed,omitempty"` // per-frame flag choice
 	RawPayload []byte `json:"raw_payload,omitempty"` // if set, this is put on the wire verbatim (hostile)
+	HasRaw     bool   `json:"has_raw,omitempty"`     // RawPayload is meant even if empty (survives JSON)
 	Flags      *int   `json:"flags,omitempty"`      // override flag byte (hostile)
 	LenDelta   int    `json:"len_delta,omitempty"`  // declared length = real length + delta (hostile)
 }
@@ -50,6 +51,8 @@ type RespPlan struct {
 	OmitEnd      bool        `json:"omit_end,omitempty"`        // never signal the end (missing grpc-status / end frame)
 	ExtraHdrs    [][2]string `json:"extra_hdrs,omitempty"`      // raw control headers (hostile)
 	RawBody      []byte      `json:"raw_body,omitempty"`        // if non-nil replaces the rendered body (hostile)
+	HasRawBody   bool        `json:"has_raw_body,omitempty"`
+	HasEndRaw    bool        `json:"has_end_raw,omitempty"`
 	RawStatus    int         `json:"raw_status,omitempty"`
 	ContentType  string      `json:"content_type,omitempty"`    // override
 	HTTPBody     bool        `json:"http_body,omitempty"`       // REST target answering google.api.HttpBody: raw bytes
